@@ -1,0 +1,111 @@
+//go:build verif
+
+// Verification-only exports for property C20 (session controller / session injection API).
+// Add-only: nothing here is compiled without the tag and no existing line is changed.
+
+package tls
+
+import (
+	"bytes"
+	"time"
+
+	"github.com/refraction-networking/utls/internal/tls13"
+)
+
+// VerifSessionCtl is a snapshot of the unexported sessionController / build state of a UConn.
+type VerifSessionCtl struct {
+	State       int  // sessionControllerState
+	Locked      bool // sessionController.locked
+	Tracker     int  // LoadSessionTrackerState
+	Calling     bool // callingLoadSession
+	BuildStatus int  // ClientHelloBuildStatus
+	SkipOnNil   bool // skipResumptionOnNilExtension
+	TicketExt   ISessionTicketExtension
+	PskExt      PreSharedKeyExtension
+}
+
+// VerifSessionCtl returns the controller snapshot.
+func (uconn *UConn) VerifSessionCtl() VerifSessionCtl {
+	s := uconn.sessionController
+	return VerifSessionCtl{
+		State:       int(s.state),
+		Locked:      s.locked,
+		Tracker:     int(s.loadSessionTracker),
+		Calling:     s.callingLoadSession,
+		BuildStatus: int(uconn.clientHelloBuildStatus),
+		SkipOnNil:   uconn.skipResumptionOnNilExtension,
+		TicketExt:   s.sessionTicketExt,
+		PskExt:      s.pskExtension,
+	}
+}
+
+// VerifKeyShareState reports, for every non-GREASE key share of the current hello, whether
+// the handshake state holds the private key belonging to the public share ('k') or not ('p').
+// "-" when the hello carries no key share.
+func (uconn *UConn) VerifKeyShareState() string {
+	h := uconn.HandshakeState.Hello
+	if h == nil {
+		return "-"
+	}
+	keys := uconn.HandshakeState.State13.KeyShareKeys
+	out := []byte{}
+	for _, ks := range h.KeyShares {
+		if isGREASEUint16(uint16(ks.Group)) {
+			continue
+		}
+		held := false
+		if keys != nil {
+			switch ks.Group {
+			case X25519MLKEM768:
+				if keys.Mlkem != nil {
+					ec := keys.MlkemEcdhe
+					if ec == nil {
+						ec = keys.Ecdhe
+					}
+					held = ec != nil && bytes.Equal(ks.Data, append(keys.Mlkem.EncapsulationKey().Bytes(), ec.PublicKey().Bytes()...))
+				}
+			case X25519Kyber768Draft00:
+				if keys.Mlkem != nil && keys.MlkemEcdhe != nil {
+					held = bytes.Equal(ks.Data, append(keys.MlkemEcdhe.PublicKey().Bytes(), keys.Mlkem.EncapsulationKey().Bytes()...))
+				}
+			default:
+				held = keys.Ecdhe != nil && bytes.Equal(ks.Data, keys.Ecdhe.PublicKey().Bytes())
+			}
+		}
+		if held {
+			out = append(out, 'k')
+		} else {
+			out = append(out, 'p')
+		}
+	}
+	if len(out) == 0 {
+		return "-"
+	}
+	return string(out)
+}
+
+// VerifMakePskExt builds an initialised UtlsPreSharedKeyExtension from a TLS 1.3 session the
+// way a user holding the session's secrets would: identity = the session's ticket with the
+// obfuscated age at `now`, early secret and binder key derived from the resumption secret,
+// then the exported InitializeByUtls.
+func VerifMakePskExt(cs *ClientSessionState, now time.Time) *UtlsPreSharedKeyExtension {
+	s := cs.session
+	suite := cipherSuiteTLS13ByID(s.cipherSuite)
+	if suite == nil {
+		return nil
+	}
+	age := now.Sub(time.Unix(int64(s.createdAt), 0))
+	id := PskIdentity{Label: s.ticket, ObfuscatedTicketAge: uint32(age/time.Millisecond) + s.ageAdd}
+	es := tls13.NewEarlySecret(suite.hash.New, s.secret)
+	e := &UtlsPreSharedKeyExtension{}
+	e.InitializeByUtls(s, es.Secret(), es.ResumptionBinderKey(), []PskIdentity{id})
+	return e
+}
+
+// VerifSessionVersion returns the protocol version stored in a session (0 for nil).
+func VerifSessionVersion(s *SessionState) uint16 {
+	if s == nil {
+		return 0
+	}
+	return s.version
+}
